@@ -21,6 +21,7 @@ from pySDC.implementations.datatype_classes.mesh import mesh, imex_mesh
 from pySDC.implementations.transfer_classes.TransferMesh import mesh_to_mesh
 
 PID = 'C11'
+BOUNDS = {'quick': dict(node_counts='1..4', grids='8/4 16/8 (periodic), 7/3 15/7 (Dirichlet)', orders='2 4 6 8', dims='1..2'), 'thorough': dict(node_counts='1..6', grids='up to 32/16, 31/15', dims='1..3')}
 NODE_TYPES = ['LEGENDRE', 'EQUID', 'CHEBY-1', 'CHEBY-2', 'CHEBY-3', 'CHEBY-4']
 QUAD_TYPES = ['RADAU-RIGHT', 'LOBATTO', 'GAUSS', 'RADAU-LEFT']
 
